@@ -199,9 +199,18 @@ func c17Paths(rng *rand.Rand, l *c17Layout, n int) []string {
 		case 3:
 			p = "/" + strings.Repeat("../", 1+rng.Intn(4)) + strings.TrimPrefix(p, "/")
 		}
-		switch rng.Intn(8) {
+		switch rng.Intn(10) {
 		case 0:
 			add(pre + "x" + p) // prefix look-alike
+		case 8:
+			// the mount prefix glued to a dot segment: "/assets../x" is not under "/assets/"
+			add(pre + ".." + p)
+			add(pre + "../outside/secret.txt")
+			add("/" + pre + "../outside/secret.txt")
+		case 9:
+			add(pre + "." + p)
+			add(pre + "/v1.." + p)
+			add(pre + "..%2foutside%2fsecret.txt")
 		case 1:
 			add(p) // without the prefix
 		case 2:
@@ -372,6 +381,60 @@ func checkC17(tier string) {
 						}
 					}
 				}()
+				// (1b) the tree changes under a running server: a file that was just served is
+				// replaced by a link to an outside file (and later a directory by a link to an
+				// outside directory); the same URL must not start leaking
+				if canonical && pi%3 == 0 {
+					func() {
+						rel := strings.TrimPrefix(p, strings.TrimSuffix(l.Prefix, "/")+"/")
+						abs := filepath.Join(base, "root", filepath.FromSlash(rel))
+						fi, err := os.Lstat(abs)
+						if err != nil || !fi.Mode().IsRegular() {
+							return
+						}
+						content, _ := os.ReadFile(abs)
+						target := filepath.Join(base, "outside", "secret.txt")
+						victim := abs
+						if pi%2 == 1 && filepath.Dir(abs) != filepath.Join(base, "root") {
+							// replace the parent directory instead: same file name exists outside? use odir
+							return
+						}
+						os.Remove(victim)
+						if os.Symlink(target, victim) != nil {
+							os.WriteFile(victim, content, 0o644)
+							return
+						}
+						defer func() {
+							os.Remove(victim)
+							os.WriteFile(victim, content, 0o644)
+						}()
+						for _, method := range []string{"GET", "HEAD"} {
+							req := &http.Request{Method: method, URL: &url.URL{Path: p}, Header: http.Header{}, Proto: "HTTP/1.1", ProtoMajor: 1, ProtoMinor: 1}
+							rec := httptest.NewRecorder()
+							func() {
+								defer func() {
+									if e := recover(); e != nil {
+										r.Violate("panic:ServeHTTP", fmt.Sprintf("ServeHTTP panicked on %q after the file became a link: %v", p, e), map[string]interface{}{"path": p})
+									}
+								}()
+								srv.ServeHTTP(rec, req)
+							}()
+							if rec.Code >= 200 && rec.Code < 300 {
+								// the only thing at this path now is a link leaving the root: nothing may be served
+								r.Violate("leak:after-file-replaced-by-link:"+strings.ToLower(method), fmt.Sprintf("%s %q answers %d after the in-root file it had served before was replaced by a link pointing outside the root", method, p, rec.Code), map[string]interface{}{"path": p, "layout": l, "body": clip17(rec.Body.String())})
+								return
+							}
+							mu.Lock()
+							stats["requests_after_file_replaced_by_outside_link"]++
+							mu.Unlock()
+							if m := c17tok.FindString(rec.Body.String()); m != "" {
+								r.Violate("leak:after-file-replaced-by-link", fmt.Sprintf("%s %q returned the bytes of an outside file (%s) after the in-root file it had served before was replaced by a link pointing outside the root", method, p, m), map[string]interface{}{"path": p, "layout": l})
+								return
+							}
+						}
+						r.Case(lh+"|relink|"+p, true)
+					}()
+				}
 				// (2) through a ServeMux mounted the way the CLI mounts static routes
 				if pi%2 == 0 {
 					func() {
